@@ -1006,6 +1006,15 @@ pub fn c09(em: &mut Emit, thorough: bool, seed: u64) {
             }
         };
         for op in &ops {
+            let mut before_flush = 0usize;
+            if *op == Op::Flush {
+                // take what is available already, so that what THIS flush call makes available
+                // can be told apart (K2 classification, below)
+                let from = s.steps.len();
+                s.apply(&Op::PollUntilPending(1));
+                consume(&mut s, &mut frames, from);
+                before_flush = frames.len();
+            }
             let from = s.steps.len();
             s.apply(op);
             for st in &s.steps[from..] {
@@ -1023,13 +1032,9 @@ pub fn c09(em: &mut Emit, thorough: bool, seed: u64) {
                 let from = s.steps.len();
                 s.apply(&Op::PollUntilPending(1));
                 consume(&mut s, &mut frames, from);
-                // how many bytes the encoder pushed during this flush call (K2 classification)
-                let pushed = s.steps[..from]
-                    .iter()
-                    .rev()
-                    .find(|st| st.tok.starts_with("GF"))
-                    .map(|st| (st.tok.len() - 2) / 2)
-                    .unwrap_or(0);
+                // how many compressed bytes this flush call made available — measured on the
+                // implementation's own frames (K2: flate2's flush stops after one 32 KiB dump)
+                let pushed = frames.len() - before_flush;
                 em.note("gz", &format!("0 {} {} {}", hex(&frames), hex(&written), pushed));
             }
         }
